@@ -159,6 +159,24 @@ Proof.
     split; try congruence; auto; intros [C|C]; congruence.
 Qed.
 
+(* ------------------------------------------------------------------ results are slices of the page *)
+Lemma leaf_results_inside_l : forall d i, blen d = PAGE_SIZE -> bytes_ok d = true -> 0 <= i ->
+  (forall k, leaf_key_at d i = Ok k ->
+     exists lo len, 0 <= lo /\ 0 <= len /\ lo + len <= PAGE_SIZE /\ k = bslice d lo (lo + len)) /\
+  (forall v, leaf_value_at d i = Ok v ->
+     exists lo len, 0 <= lo /\ 0 <= len /\ lo + len <= PAGE_SIZE /\ v = bslice d lo (lo + len)).
+Proof.
+  intros d i Hl Hb Hi. split.
+  - intros k Hk.
+    destruct (leaf_key_at_cases d i Hl Hb Hi) as [(_ & R)|(_ & [R|(co & kl & H1 & H2 & H3 & R)])];
+      rewrite R in Hk; try discriminate.
+    inversion Hk. subst. exists co, kl. auto.
+  - intros v Hv.
+    destruct (leaf_value_at_cases d i Hl Hb Hi)
+      as [(_ & R)|[(_ & _ & R)|(_ & _ & [R|(lo & len & H1 & H2 & H3 & R)])]]; rewrite R in Hv; try discriminate.
+    inversion Hv. subst. exists lo, len. auto.
+Qed.
+
 (* ------------------------------------------------------------------ the property outside the two classes *)
 (* a page whose announced slot array fits the page: no index reaches a slot beyond it *)
 Lemma leaf_slots_fit_no_oob d i : PH_SIZE <= blen d -> leaf_slots_fit d = true -> 0 <= i -> leaf_slot_oob d i = false.
